@@ -149,15 +149,29 @@ func (p *Pool) runOne(w *worker, job Job) (Result, bool) {
 		err  error
 	}
 	ch := make(chan rd, 1)
+	var partial []Violation
 	go func() {
-		line, err := w.out.ReadBytes('\n')
-		ch <- rd{line, err}
+		for {
+			line, err := w.out.ReadBytes('\n')
+			if err == nil && bytes.HasPrefix(line, []byte(`{"partial_violation":`)) {
+				var pv struct {
+					V Violation `json:"partial_violation"`
+				}
+				if json.Unmarshal(line, &pv) == nil {
+					partial = append(partial, pv.V)
+				}
+				continue
+			}
+			ch <- rd{line, err}
+			return
+		}
 	}()
 	select {
 	case r := <-ch:
 		if r.err != nil {
 			_ = w.cmd.Wait()
-			return Result{ID: job.ID, Crash: crashText(w.stderr.String())}, false
+			// What the execution had already found before the system under test took the process down.
+			return Result{ID: job.ID, Crash: crashText(w.stderr.String()), Viol: partial}, false
 		}
 		var res Result
 		if err := json.Unmarshal(r.line, &res); err != nil {
@@ -302,7 +316,16 @@ func WorkerLoop(run func(Job) Result) {
 			fmt.Fprintln(os.Stderr, "worker: bad job:", err)
 			os.Exit(3)
 		}
+		partialSink = func(v Violation) {
+			b, err := json.Marshal(struct {
+				V Violation `json:"partial_violation"`
+			}{v})
+			if err == nil {
+				_, _ = out.Write(append(b, '\n'))
+			}
+		}
 		res := run(job)
+		partialSink = nil
 		res.ID = job.ID
 		b, err := json.Marshal(res)
 		if err != nil {
